@@ -185,6 +185,26 @@ def gen_qf(rng, n, tag='q'):
 
 GEN = {'bloom': gen_bloom, 'cms': gen_cms, 'hll': gen_hll, 'cuckoo': gen_cuckoo, 'qf': gen_qf}
 
+QUICK = {'bloom': 400, 'cms': 400, 'hll': 300, 'cuckoo': 500, 'qf': 500}
+THOROUGH = {'bloom': 20000, 'cms': 20000, 'hll': 4000, 'cuckoo': 20000, 'qf': 20000}
+class _Search(dict):
+    def __missing__(self, k): return 3000
+SEARCH = _Search()
+
+def read_cases(path):
+    out, cur = [], None
+    for line in open(path):
+        line = line.rstrip('\n')
+        if not line or line.startswith('#'):
+            continue
+        if line.startswith('CASE '):
+            cur = [line]
+        elif line == 'END':
+            cur.append(line); out.append(cur); cur = None
+        elif cur is not None:
+            cur.append(line)
+    return out
+
 def write_cases(path, cases):
     with open(path, 'w') as f:
         for c in cases:
